@@ -57,6 +57,8 @@ func c05witnesses() []c05probe {
 		{"objref_in_struct", "a struct with an object field", c05objWitness("w16", "struct"), false},
 		{"obj_plain_param", "a method parameter of type obj", mk("w17", "A", nil, zz(), fn("f", nil, par("b", c05.Sc("obj")))), false},
 		{"objref_package_path", "a method returning an object, generated with a package path (stub --path)", c05objWitness("w18", "path"), false},
+		{"objref_lowercase_iface", "a method returning an object of an interface named bomb", c05objWitness("w19", "lower"), false},
+		{"method_shadows_generic", "a method property(any) next to four properties (which of the two methods a call reaches is decided per call by map iteration order)", mk("w20", "A", nil, zz(), fn("property", i32, par("a", c05.Sc("any"))), act("prop", "s", par("a", i32)), act("prop", "t", par("a", str)), act("prop", "u", par("a", i32)), act("prop", "v", par("a", str))), true},
 		{"prop_any_value_shadow", "a property of type any", mk("w11", "A", nil, zz(), act("prop", "s", par("a", c05.Sc("any")))), false},
 	}
 }
@@ -76,6 +78,9 @@ func c05objWitness(name, shape string) *c05.Package {
 		s := &c05.StructDecl{Name: "Cargo", Fields: []c05.Field{{Name: "b", T: c05.ObjOf(bomb)}, {Name: "n", T: i32}}}
 		p.Structs = append(p.Structs, s)
 		a.Actions = append(a.Actions, &c05.Action{Kind: "fn", Name: "load", Params: []c05.Param{{Name: "c2", T: c05.RefTo(s)}}})
+	case "lower":
+		bomb.Name = "bomb"
+		a.Actions = append(a.Actions, &c05.Action{Kind: "fn", Name: "shoot", Ret: c05.ObjOf(bomb)})
 	case "path":
 		a.Actions = append(a.Actions, &c05.Action{Kind: "fn", Name: "shoot", Ret: c05.ObjOf(bomb)})
 		p.GenPath = "qv/pkgs/" + name + "/" + name
